@@ -45,9 +45,13 @@ OUTER:
 			// So, we notify/awake the merger here so that it can feed
 			// stackDirtyMid down to the persister as stackDirtyBase.
 			if m.waitDirtyIncomingCh != nil && // Merger is indeed asleep.
-				(m.stackDirtyMid != nil && len(m.stackDirtyMid.a) > 0) &&
-				(m.stackDirtyTop == nil || len(m.stackDirtyTop.a) <= 0) {
-				m.NotifyMerger("from-persister", false)
+				m.stackDirtyMid != nil && m.stackDirtyTop == nil {
+				// Must not block while holding the collection lock: when
+				// the ping queue is full the merger is about to run anyway.
+				select {
+				case m.pingMergerCh <- ping{kind: "from-persister"}:
+				default:
+				}
 			}
 
 			atomic.AddUint64(&m.stats.TotPersisterWaitBeg, 1)
